@@ -13,6 +13,14 @@ CHECKS = {
              "the reference model (only-if direction for successes, unchanged-state for failures).",
         note="Bounded participants (<=4 sessions, 2+1 tokens, two PIN values per user); merged search assumes the canonical key "
              "captures hidden state, cross-checked by the unmerged DFS to depth 3/4; trusted base: p11sh marshaller, Python model."),
+    "C11": dict(
+        category="model_checking", design_ref="DESIGN.md 3/C11",
+        technique="explicit-state BFS (depth-bounded, merged) + unmerged DFS over the real library against a handle-lifetime reference model",
+        text="Every history of open/close/close-all/login/logout/create/find/destroy up to the depth bound is executed on the real library; "
+             "after every call every session and object handle ever issued on the path is probed and must be valid exactly when the lifetime "
+             "model says so (iff), newly issued numbers must be fresh, and a valid object handle must still denote the same object (CKA_LABEL).",
+        note="Bounds: <=3 sessions (2 on A, 1 on B), <=2-3 live objects, depth 6 (quick) / 7 (thorough); merged key keeps saturating "
+             "dead-handle counts so that counter-reset reuse is reachable; trusted base: p11sh, the Python lifetime model."),
 }
 
 NOT_YET = "check under construction in this session; not claimed yet (DESIGN.md Appendix D gives the build order)"
